@@ -1,10 +1,11 @@
 (* C18 — property theorems. Statements only, each closed by `exact <lemma>`, Print Assumptions beneath,
    then the examples: non-vacuity of the hypotheses, and the refutations of the code as it was before
-   the three repairs (9ff7c19 ReleaseBuckets, 290ab18 recover, b9905fa save) and outside the domain.
+   the four repairs (9ff7c19 ReleaseBuckets, 290ab18 recover, b9905fa save re-homes the entry, save does its
+   Add before the unlock) and outside the domain.
    All theorems are about [run] = the interleaving semantics of Model.v over arbitrary label lists,
    the same [step] function that the correspondence run (CaseDefs.v, exec_ev) executes. *)
-From Coq Require Import List ZArith Permutation.
-From C18 Require Import Model ProofsRelease ProofsManaged ProofsCoherent ProofsPayload ProofsAcct ProofsBound.
+From Coq Require Import List ZArith Permutation Lia.
+From C18 Require Import Model ProofsRelease ProofsManaged ProofsCoherent ProofsPayload ProofsAcct ProofsBound ProofsListing ProofsFull.
 Import ListNotations.
 
 (* Coherence, all interleavings (no domain restriction): a lookup that returned a value returned a
@@ -26,8 +27,7 @@ Proof. exact no_poisoning. Qed.
 Print Assumptions C18_no_poisoning.
 
 (* Accounting, all interleavings inside the domain (race_free: no Release of a cache while one of its
-   entries is loading; no CleanEmptyGenerations between a save's unlock and its Add for the dropped
-   generation): for every generation that is not marked stale,
+   entries is loading): for every generation that is not marked stale,
        size counter + Adds still pending = sum of the sizes of the attached entries of that generation.
    (Unconditional "differ by exactly the pending adds" form; with no pending Add the two are equal.) *)
 Theorem C18_accounting : forall lim mg es ls st,
@@ -36,6 +36,17 @@ Theorem C18_accounting : forall lim mg es ls st,
     (gsz g (gens st) + pend_sum g (threads st))%Z = att_sum g (entries st).
 Proof. exact accounting_per_generation. Qed.
 Print Assumptions C18_accounting.
+
+(* Accounting, listing level: in every state reached by an interleaving inside the domain (loader sizes and
+   entrySize >= 0) in which no attached entry is left in a stale generation (i.e. between cleaning passes;
+   lookups may be in flight), the size the cleaner accounts (getSize) equals the sum of the sizes of ALL
+   live entries. *)
+Theorem C18_accounting_total : forall lim mg es ls st,
+  (0 <= es)%Z -> Forall label_ok ls ->
+  run (init lim mg es) ls = Some st -> race_free (init lim mg es) ls = true ->
+  no_stale_attached st -> acct st = live st.
+Proof. exact accounting_total. Qed.
+Print Assumptions C18_accounting_total.
 
 (* Every cache that was not released is in the cleaner's bucket list — all interleavings, including
    NewCache / Release between the two halves of ReleaseBuckets. *)
@@ -63,6 +74,16 @@ Theorem C18_cleanup_bounds : forall st st' r,
 Proof. exact cleanup_pass_bound. Qed.
 Print Assumptions C18_cleanup_bounds.
 
+(* ... and from any such reachable state the LIVE size is under the limit too, and accounted = live. *)
+Theorem C18_cleanup_live_bound : forall lim mg es ls st st' r,
+  (0 <= es)%Z -> (0 < lim)%Z -> Forall label_ok ls ->
+  run (init lim mg es) ls = Some st -> race_free (init lim mg es) ls = true ->
+  no_stale_attached st ->
+  exec_ev st ECleanup = Some (st', r) ->
+  acct st' = live st' /\ (live st' <= lim)%Z.
+Proof. exact cleanup_live_bound. Qed.
+Print Assumptions C18_cleanup_live_bound.
+
 (* ------------------------------------------------------------------ examples *)
 Open Scope Z_scope.
 
@@ -73,7 +94,7 @@ Proof. split; vm_compute; reflexivity. Qed.
 
 Definition w_release := [LNewCache; LNewCache; LNewCache; LNewCache; LRelease 1; LRelease 3; LRelCollect; LRelRemove].
 Example C18_release_buckets_v0_refuted :
-  exists st, run_v (mkV true true false false) (init 0 0 68) w_release = Some st /\
+  exists st, run_v (mkV true true false true) (init 0 0 68) w_release = Some st /\
              is_released (caches st) 2 = false /\ ~ In 2%nat (buckets st).
 Proof. eexists. split; [vm_compute; reflexivity|]. split; [reflexivity|]. simpl. intuition discriminate. Qed.
 
@@ -83,7 +104,7 @@ Definition w_recover := [LNewCache; LSpawn 0 7 (OVal 1 100); LStep 0; LStep 0; L
   LCleanBegin; LCleanCache 0; LSpawn 0 1 (OVal 2 50); LStep 2; LStep 2; LStep 2; LStep 1].
 Example C18_recover_v0_refuted :
   race_free (init 1 0 68) w_recover = true /\
-  (exists st, run_v (mkV false true true false) (init 1 0 68) w_recover = Some st /\ acct st = 118 /\ live st = 0) /\
+  (exists st, run_v (mkV false true true true) (init 1 0 68) w_recover = Some st /\ acct st = 118 /\ live st = 0) /\
   (exists st, run (init 1 0 68) w_recover = Some st /\ acct st = 118 /\ live st = 118).
 Proof. split; [vm_compute; reflexivity|]. split; eexists; (split; [vm_compute; reflexivity|split; vm_compute; reflexivity]). Qed.
 
@@ -93,26 +114,29 @@ Definition w_save := [LNewCache; LSpawn 0 7 (OVal 1 100); LStep 0; LStep 0; LSte
   LRotate; LSpawn 0 7 (OVal 3 100); LStep 2; LGcGens; LStep 1; LStep 1].
 Example C18_save_v0_refuted :
   race_free (init 2000 100 68) w_save = true /\
-  (exists st, run_v (mkV true false true false) (init 2000 100 68) w_save = Some st /\ acct st = 168 /\ live st = 286) /\
+  (exists st, run_v (mkV true false true true) (init 2000 100 68) w_save = Some st /\ acct st = 168 /\ live st = 286) /\
   (exists st, run (init 2000 100 68) w_save = Some st /\ acct st = 286 /\ live st = 286).
 Proof. split; [vm_compute; reflexivity|]. split; eexists; (split; [vm_compute; reflexivity|split; vm_compute; reflexivity]). Qed.
 
-(* the two domain restrictions are needed (code as it is now): Release while a creator is in its loader
-   (replayed on the real code by the harness, class witness-R3) ... *)
+(* the domain restriction is needed (code as it is now): Release while a creator is in its loader
+   (replayed on the real code by the harness, class witness-R3) *)
 Definition w_release_during_load := [LNewCache; LSpawn 0 1 (OVal 1 50); LStep 0; LRelease 0; LStep 0; LStep 0].
 Example C18_release_during_load_outside_domain :
   race_free (init 2000 100 68) w_release_during_load = false /\
   exists st, run (init 2000 100 68) w_release_during_load = Some st /\ acct st = 118 /\ live st = 0.
 Proof. split; [vm_compute; reflexivity|]. eexists. split; [vm_compute; reflexivity|split; vm_compute; reflexivity]. Qed.
 
-(* ... and CleanEmptyGenerations between save's unlock and its gen.size.Add (model-level only: this
-   window cannot be scheduled from outside the package) *)
+(* before the last repair save did gen.size.Add(size) AFTER c.mu.Unlock(): a Rotate, a hit that re-homes the
+   other entries and CleanEmptyGenerations in that window dropped the generation the Add then landed on:
+   accounted 268, live 386 (reproduced on the real code through the schedule point
+   verifhook.At("cache.save.after-unlock"), harness class witness-R4) *)
 Definition w_gc_pending := [LNewCache; LSpawn 0 2 (OVal 1 200); LStep 0; LStep 0; LStep 0; LSpawn 0 1 (OVal 2 50);
   LStep 1; LStep 1; LRotate; LSpawn 0 2 (OVal 3 1); LStep 2; LGcGens; LStep 1].
-Example C18_gc_between_unlock_and_add_outside_domain :
-  race_free (init 2000 100 68) w_gc_pending = false /\
-  exists st, run (init 2000 100 68) w_gc_pending = Some st /\ acct st = 268 /\ live st = 386.
-Proof. split; [vm_compute; reflexivity|]. eexists. split; [vm_compute; reflexivity|split; vm_compute; reflexivity]. Qed.
+Example C18_save_add_after_unlock_v0_refuted :
+  race_free (init 2000 100 68) w_gc_pending = true /\
+  (exists st, run_v (mkV true true true false) (init 2000 100 68) w_gc_pending = Some st /\ acct st = 268 /\ live st = 386) /\
+  (exists st, run (init 2000 100 68) w_gc_pending = Some st /\ acct st = 386 /\ live st = 386).
+Proof. split; [vm_compute; reflexivity|]. split; eexists; (split; [vm_compute; reflexivity|split; vm_compute; reflexivity]). Qed.
 
 (* non-vacuity: an interleaving inside the domain with two concurrent callers of one key (creator +
    waiter), a failing loader, a rotation and an effective cleaning pass *)
@@ -128,4 +152,14 @@ Proof.
   split; [vm_compute; reflexivity|]. eexists. split; [vm_compute; reflexivity|].
   split; [vm_compute; reflexivity|]. split; [vm_compute; reflexivity|]. split; [vm_compute; reflexivity|].
   eexists. eexists. split; [vm_compute; reflexivity|]. repeat split; vm_compute; reflexivity.
+Qed.
+
+(* the hypotheses of C18_accounting_total / C18_cleanup_live_bound hold for that schedule *)
+Example C18_nonvacuous_total :
+  Forall label_ok w_live /\
+  exists st, run (init 400 20 68) w_live = Some st /\ no_stale_attached st.
+Proof.
+  split; [repeat constructor; simpl; auto; lia|].
+  eexists. split; [vm_compute; reflexivity|].
+  intros e en He A Nz. do 5 (destruct e as [|e]; simpl in He; [inversion He; subst; try discriminate; try reflexivity; try (exfalso; apply Nz; reflexivity)|]); destruct e; discriminate.
 Qed.
